@@ -120,9 +120,13 @@ def check_steps(d, left, cap):
     return prev, n
 
 
-def nf_checks(spec, left, interp):
-    """ (1)-(4) on one diagram; returns its normal form. """
+def nf_checks(spec, left, interp, via_subs=False):
+    """ (1)-(4) on one diagram; returns its normal form. With via_subs the
+    diagram first goes through a substitution (same shape, new boxes): values
+    left behind by other public operations normalise like fresh ones. """
     d = specs.build(spec)
+    if via_subs:
+        d, _ = common.substituted(d)
     n = len(d)
     cap = 10 * n ** 3 + 100
     last, nsteps = check_steps(d, left, cap)
@@ -163,7 +167,8 @@ def nf_checks(spec, left, interp):
     except (StepCap, NotImplementedError) as exc:
         raise Violation("C06:other-direction-fails", "{} with left={}: {!r}"
                         .format(d, not left, exc))
-    direct = specs.build(spec).normal_form(left=not left)
+    direct = (common.substituted(specs.build(spec))[0] if via_subs
+              else specs.build(spec)).normal_form(left=not left)
     require(direct == other and specs.dkey(direct) == specs.dkey(other),
             "C06:normal-form-depends-on-earlier-calls",
             lambda: "{} with left={}: {} vs {}".format(
@@ -193,6 +198,7 @@ def class_cases(draw, tier):
         distinct_names=draw(st.booleans())))
     interp = draw(gen.interpretations([spec], max_dim=2))
     return {"d": spec, "left": draw(st.booleans()), "interp": interp,
+            "via_subs": draw(st.integers(0, 3)) == 0,
             "picks": draw(st.lists(st.integers(0, 10 ** 6), min_size=12,
                                    max_size=12))}
 
@@ -209,7 +215,12 @@ def check_class(case):
     # the generated order is mostly normal already: start from a member
     start = states[case["picks"][0] % len(states)]
     spec = member_spec(spec, start)
-    d, nf, nsteps = nf_checks(spec, left, interp)
+    via_subs = bool(case.get("via_subs"))
+    d, nf, nsteps = nf_checks(spec, left, None if via_subs else interp,
+                              via_subs)
+    if via_subs:
+        return dict(nt=nsteps > 0, labels=["via-subs", "steps%d" % min(
+            nsteps, 5)], show=common.show(d, 150))
     if len(states) > 16:
         members = [states[p % len(states)] for p in case["picks"]]
     else:
